@@ -97,6 +97,17 @@ pub fn shape_module(feat: &[String]) -> Vec<u8> {
             w += "    i32.const 0 i32.const 0 i32.const 1 memory.init $mm 1 data.drop 1\n";
         }
         w += "  )\n";
+        // every memarg-carrying instruction the decoder knows, spread over all memories (unreachable code: any
+        // operand types validate there)
+        let nmem = (if has("imports") { 1 } else { 0 }) + 1 + (if has("mem64") { 1 } else { 0 });
+        let ops = crate::memops::discover();
+        let mem_of = |k: usize| (k % nmem) as u32;
+        let lines = crate::memops::wat_lines(&ops, nmem as u32, &mem_of);
+        w += "  (func $allmem (type $t0)\n    unreachable\n";
+        for l in lines.iter() {
+            w += &format!("    {} drop\n", l);
+        }
+        w += "  )\n";
     }
     if has("globals") {
         w += "  (global $g0 (mut i32) (i32.const -7))\n  (global $g1 f32 (f32.const -nan:0x7fffff))\n  (global $g2 f64 (f64.const nan:0x4000000000001))\n";
